@@ -114,6 +114,7 @@ var Mutants = map[string][]Mutant{
 		{"number table larger than the buffer", "path.go", `\t\t'A': 7,\n`, "\t\t'A': 8,\n", "E4.table-bound"},
 	},
 	"C12": {
+		{"miter limit only checked when the join is unchanged", "renderers/pdf/writer.go", `\t\tw\.lineJoin = lineJoin\n\t\}\n\tif lineJoin == 0 && miterLimit != w\.miterLimit \{`, "\t\tw.lineJoin = lineJoin\n\t} else if lineJoin == 0 && miterLimit != w.miterLimit {", "E6.memo-independent"},
 		{"PS writes a miter with a round gap natively", "renderers/ps/ps.go", "\\} else if _, ok := miter\\.GapJoiner\\.\\(canvas\\.BevelJoiner\\); !ok \\{\\n\\t\\t\\tstrokeUnsupported = true", "} else if miter.GapJoiner == nil {\n\t\t\tstrokeUnsupported = true", "E6.joiner-support"},
 		{"PDF writes arcs joins natively", "renderers/pdf/pdf.go", `if _, ok := style\.StrokeJoiner\.\(canvas\.ArcsJoiner\); ok \{\n\t\tstrokeUnsupported = true`, "if arcs, ok := style.StrokeJoiner.(canvas.ArcsJoiner); ok && math.IsNaN(arcs.Limit) {\n\t\tstrokeUnsupported = true", "E6.joiner-support"},
 		{"PDF dash phase normalised before odd-length doubling", "renderers/pdf/writer.go", `(\tif len\(dashArray\)%2 == 1 \{\n\t\tdashArray = append\(dashArray, dashArray\.\.\.\)\n\t\}\n)\n((?:.*\n){10})\n\tdashes := append\(dashArray, dashPhase\)`, "$2\n$1\n\tdashes := append(dashArray, dashPhase)", "E6.dash-period"},
@@ -127,6 +128,7 @@ var Mutants = map[string][]Mutant{
 		{"PS eofill outside its guard", "renderers/ps/ps.go", `r\.w\.Write\(\[\]byte\(" fill"\)\)\n\t\t\}\n\t\tif style\.HasStroke\(\) && !strokeUnsupported \{\n\t\t\tr\.w\.Write\(\[\]byte\(" grestore"\)\)`, "r.w.Write([]byte(\" eofill\"))\n\t\t}\n\t\tif style.HasStroke() && !strokeUnsupported {\n\t\t\tr.w.Write([]byte(\" grestore\"))", "E6.enum"},
 	},
 	"C13": {
+		{"opacity names remembered for the whole document", "renderers/pdf/writer.go", `(func \(w \*pdfWriter\) NewPage\((?:.*\n)*?\t\tgraphicsStates: )map\[float64\]pdfName\{\},`, "var sharedGS = map[float64]pdfName{}\n\n${1}sharedGS,", "E5.page-memo"},
 		{"literal strings no longer escape CR", "renderers/pdf/writer.go", `\t\tv = strings\.Replace\(v, "\\r", .*\n`, "", "E5.string-escape"},
 		{"parentheses escaped before the backslash", "renderers/pdf/writer.go", "\\t\\tv = strings\\.Replace\\(v, `\\\\`, `\\\\\\\\`, -1\\)\\n(\\t\\tv = strings\\.Replace\\(v, `\\(`, .*\\n)", "$1\t\tv = strings.Replace(v, `\\`, `\\\\`, -1)\n", "E5.string-escape"},
 		{"soft mask declares the image's filter", "renderers/pdf/writer.go", `"Interpolate":      true,\n\t\t\t\t"Filter":           pdfFilterFlate,`, "\"Interpolate\":      true,\n\t\t\t\t\"Filter\":           filter,", "E5.stream-filter"},
@@ -156,8 +158,9 @@ var Mutants = map[string][]Mutant{
 		{"rasterizer ignores the fill rule", "renderers/rasterizer/rasterizer.go", `\t\tr\.scanner\.SetWinding\(style\.FillRule != canvas\.EvenOdd\)\n`, ``, "E6.style-field"},
 	},
 	"C15": {
+		{"FitImage reflects about the size taken before the crop", "canvas.go", `m = m\.ReflectYAbout\(float64\(img\.Bounds\(\)\.Size\(\)\.Y\) / 2\.0\)\n\t\}\n\tif c\.coordSystem == CartesianII \|\| c\.coordSystem == CartesianIII \{\n\t\tm = m\.ReflectXAbout\(float64\(img\.Bounds\(\)\.Size\(\)\.X\) / 2\.0\)\n\t\}\n\tc\.RenderImage\(img, m\)\n\}\n\n// DrawPath`, "m = m.ReflectYAbout(height / 2.0)\n\t}\n\tif c.coordSystem == CartesianII || c.coordSystem == CartesianIII {\n\t\tm = m.ReflectXAbout(float64(img.Bounds().Size().X) / 2.0)\n\t}\n\tc.RenderImage(img, m)\n}\n\n// DrawPath", "E11.reflect-image"},
 		{"DrawPath shares the style between its paths again", "canvas.go", `\t\tstyle := style // the stroke may be dropped for this path only\n`, "", "E11.draw-loop-state"},
-		{"checkDash takes the parity on the undoubled array", "path.go", `\ti, pos := dashStart\(offset, dd\)\n\tif length <= dd\[i\]-pos \{`, "\ti, pos := dashStart(offset, d)\n\tif length <= d[i]-pos {", "E11.dash-parity"},
+		{"checkDash takes the parity on the undoubled array", "path.go", `\ti, pos := dashStart\(offset, dd\)\n\tif length <= pos\+dd\[i\] \{`, "\ti, pos := dashStart(offset, d)\n\tif length <= pos+d[i] {", "E11.dash-parity"},
 		{"Fit expands only non-empty bounds", "canvas.go", `\t\t\t\tbounds = l\.path\.Bounds\(\)\n\t\t\t\tif l\.style\.HasStroke\(\) \{`, "\t\t\t\tbounds = l.path.Bounds()\n\t\t\t\tif !bounds.Empty() && l.style.HasStroke() {", "E11.fit-stroke"},
 		{"Fit forgets the top side", "canvas.go", `\t\t\t\t\tbounds\.X1 \+= hw\n\t\t\t\t\tbounds\.Y1 \+= hw\n`, "\t\t\t\t\tbounds.X1 += hw\n", "E11.fit-stroke"},
 		{"SetDashes re-uses the saved backing array", "canvas.go", `c\.Style\.Dashes = dashes`, `c.Style.Dashes = append(c.Style.Dashes[:0], dashes...)`, "E1.ctx-setter-alias"},
@@ -182,6 +185,7 @@ var Mutants = map[string][]Mutant{
 		{"Linebreak looks at items[b+1] unguarded", "text/linebreak.go", `\(len\(lb\.items\) <= b\+1 \|\| lb\.items\[b\+1\]\.Type != PenaltyType\)`, `lb.items[b+1].Type != PenaltyType`, "E4.neighbour-guard"},
 	},
 	"C18": {
+		{"text matrix shear entry not compared", "renderers/pdf/writer.go", ` && canvas\.Equal\(m\[0\]\[1\], w\.textPosition\[0\]\[1\]\)`, "", "E5.text-matrix"},
 		{"sub/superscript size scaled after MmPerEm", "font.go", `\t\tface\.YOffset = int32\(float64\(yOffset\) / scale\)\n\t\}\n\tface\.MmPerEm = face\.Size / float64\(face\.Font\.Head\.UnitsPerEm\)\n\treturn face\n`, "\t\tface.YOffset = int32(float64(yOffset) / scale)\n\t}\n\tface.MmPerEm = face.Size / float64(face.Font.Head.UnitsPerEm)\n\tif face.Variant == FontSubscript {\n\t\tface.Size *= 0.999\n\t}\n\treturn face\n", "E11.derived-scale"},
 		{"W range entry carries the next run's width", "renderers/pdf/writer.go", `W = append\(W, j, k-1, widths\[j\]\)`, "W = append(W, j, k-1, width)", "E5.w-run"},
 		{"trailing W entry stops at the sentinel", "renderers/pdf/writer.go", `for _, w := range widths\[i:\] \{`, "for _, w := range widths[i:j] {", "E5.w-run"},
@@ -191,6 +195,7 @@ var Mutants = map[string][]Mutant{
 		{"vertical fonts written as horizontal", "renderers/pdf/writer.go", `w\.writeFonts\(w\.fontsV, true\)`, `w.writeFonts(w.fontsV, false)`, "E5.fontmaps"},
 	},
 	"C19": {
+		{"stroke-dasharray refills the inherited slice", "svg.go", `\t\t\tsvg\.ctx\.Style\.Dashes = svg\.parsePoints\(val\)\n`, "\t\t\tsvg.ctx.Style.Dashes = append(svg.ctx.Style.Dashes[:0], svg.parsePoints(val)...)\n", "E11.state-slice-reuse"},
 		{"height decided by the width attribute", "svg.go", `if attrHeight != "" && !strings\.HasSuffix\(attrHeight, "%"\) \{`, "if attrHeight != \"\" && !strings.HasSuffix(attrWidth, \"%\") {", "E11.viewbox-mirror"},
 		{"parsePoints fills a package-level scratch buffer", "svg.go", `func \(svg \*svgParser\) parsePoints\(v string\) \[\]float64 \{\n((?:.*\n){4})\tvals := \[\]float64\{\}\n`, "var scratchNumbers []float64\n\nfunc (svg *svgParser) parsePoints(v string) []float64 {\n$1\tvals := scratchNumbers[:0]\n", "E11.returned-scratch"},
 		{"miter limit written into the asserted copy only", "svg.go", `\t\t\tmiter\.Limit = svg\.state\.strokeMiterLimit\n\t\t\tsvg\.ctx\.SetStrokeJoiner\(miter\)\n`, "\t\t\tmiter.Limit = svg.state.strokeMiterLimit\n", "E11.copy-store"},
@@ -203,6 +208,7 @@ var Mutants = map[string][]Mutant{
 		{"explicit width used as millimetres", "svg.go", `width = svg\.parseDimension\(attrWidth, 1\.0\) \* 25\.4 / 96\.0`, `width = svg.parseDimension(attrWidth, 1.0)`, "E11.svg-size"},
 	},
 	"C20": {
+		{"sweep points released with their square", "path_intersection.go", `\t\tfor _, event := range square\.Events \{\n\t\t\tif !event\.left \{\n\t\t\t\tboPointPool\.Put\(event\.other\)\n\t\t\t\tboPointPool\.Put\(event\)\n\t\t\t\}\n\t\t\}\n\t\tboSquarePool\.Put\(square\)`, "\t\tfor _, event := range square.Events {\n\t\t\tboPointPool.Put(event)\n\t\t}\n\t\tboSquarePool.Put(square)", "E7.point-release"},
 		{"recycled node keeps its left child", "path_intersection.go", `\tn\.left = nil\n`, ``, "E7.pool-reinit"},
 		{"Flatten writes a package variable", "path.go", `func \(p \*Path\) Flatten\(tolerance float64\) \*Path \{\n`, "func (p *Path) Flatten(tolerance float64) *Path {\n\tTolerance = tolerance\n", "E7.global"},
 		{"Face tie-break removed", "font.go", `if diff < minDiff \|\| diff == minDiff && style < minStyle \{`, `if diff < minDiff {`, "E7.map-order"},
